@@ -1617,14 +1617,17 @@ def snapshot(obj):
     if isinstance(obj, np.ndarray):
         return ("nd", obj.shape, str(obj.dtype), obj.tobytes(), obj.flags["C_CONTIGUOUS"], obj.flags["F_CONTIGUOUS"])
     if isinstance(obj, (pd.Series, pd.DataFrame)):
-        return ("pd", obj.shape, [str(t) for t in (obj.dtypes if isinstance(obj, pd.DataFrame) else [obj.dtype])], obj.to_numpy().tobytes(), list(obj.index))
+        arr = obj.to_numpy()
+        # an object array (columns of different types) holds pointers: its bytes differ from one conversion to the next
+        content = repr(arr.tolist()) if arr.dtype == object else arr.tobytes()
+        return ("pd", obj.shape, [str(t) for t in (obj.dtypes if isinstance(obj, pd.DataFrame) else [obj.dtype])], content, list(obj.index))
     if isinstance(obj, dict):
         return ("dict", [(repr(k), snapshot(v)) for k, v in obj.items()])
     if isinstance(obj, (list, tuple)):
         return ("list", [snapshot(v) for v in obj])
     return ("val", repr(obj))
 
-CONTAINERS = ["list", "np_c", "np_f", "np_int", "series", "frame", "view", "np_small"]
+CONTAINERS = ["list", "np_c", "np_f", "np_int", "series", "frame", "view", "np_small", "frame_mixed"]
 
 def to_container(vals, kind, is_matrix=False, integral=False):
     import pandas as pd
@@ -1639,6 +1642,22 @@ def to_container(vals, kind, is_matrix=False, integral=False):
         return np.asfortranarray(a) if is_matrix else a.copy()
     if kind == "np_int":
         return a.astype(np.int64) if integral and a.dtype.kind == "f" and np.all(a == np.round(a)) else a.copy()
+    if kind == "frame_mixed":
+        # a DataFrame whose columns have different dtypes (integral columns as int64 or nullable Int64, 0/1 columns as bool): its
+        # .values is an object array
+        if not is_matrix:
+            return pd.Series(vals)
+        df = pd.DataFrame(a)
+        for j, c in enumerate(df.columns):
+            col = a[:, j]
+            if col.size and np.all(col == np.round(col)):
+                if np.all((col == 0) | (col == 1)) and j % 2 == 0:
+                    df[c] = col.astype(bool)
+                elif j % 2 == 1:
+                    df[c] = pd.array(col.astype(np.int64), dtype="Int64")
+                else:
+                    df[c] = col.astype(np.int64)
+        return df
     if kind == "np_small":
         # the narrowest integer type that holds the values (uint8 / int8 / int16), boolean for 0/1 data: products taken in that
         # type would overflow or be combined logically
@@ -1711,7 +1730,7 @@ def gen_c18_small_ints(rng):
     ops += [("pfit", [rng.choice(arms) for _ in range(n1)], [float(rng.randint(0, 9)) for _ in range(n1)], rc(n1)), ("pexp", rc(2)), ("pred", rc(2))]
     npol = rng.choice([None, None, ("knearest", 3, "euclidean")])
     base = {"arms": arms, "lp": lp, "np": npol, "seed": rng.randint(0, 10**6), "ops": ops, "label": "int", "mode": "tol", "reward_style": "smallint"}
-    return {"base": base, "kind": "np_small"}
+    return {"base": base, "kind": rng.choice(["np_small", "frame_mixed"])}
 
 def gen_c18(rng, tier):
     z0 = rng.random()
